@@ -1220,6 +1220,13 @@ func genQ08(w *bufio.Writer, rng *prng, n int, depth int) {
 			q.truth("C08", "Join panicked", !pj, info2)
 			if !pj {
 				q.eq("C08", "Join of any number of elements = concatenation with the delimiter", lit(jn), lit(want), info2)
+				if len(jn) < 4000 {
+					el := make([]string, len(es))
+					for x, e := range es {
+						el[x] = hxs(string(e))
+					}
+					fmt.Fprintf(q.w, "(kjoin %s (%s) %s %s)\n", hxs(string(d2)), strings.Join(el, " "), hxs(jn), hxs(info2))
+				}
 			}
 			var bs []redact.RedactableBytes
 			var mixed []interface{}
